@@ -124,7 +124,19 @@ func (p *Prog) body(sb *strings.Builder) {
 		}
 		fmt.Fprintf(sb, "</bpmn:%s>\n", el)
 	}
-	for _, f := range p.Flows {
+	// the <sequenceFlow> elements are declared in the order of p.Flows or (about every other program, decided by its node ids) in the
+	// reverse order: what counts is the order in which a node lists its <outgoing> references, written above
+	decl := append([]*PFlow{}, p.Flows...)
+	hsh := fnv.New32a()
+	for _, n := range p.Nodes {
+		hsh.Write([]byte(n.ID))
+	}
+	if (hsh.Sum32()>>3)%2 == 1 {
+		for i, j := 0, len(decl)-1; i < j; i, j = i+1, j-1 {
+			decl[i], decl[j] = decl[j], decl[i]
+		}
+	}
+	for _, f := range decl {
 		fmt.Fprintf(sb, "<bpmn:sequenceFlow id=\"%s\" sourceRef=\"%s\" targetRef=\"%s\"", f.ID, f.Src, f.Dst)
 		if f.Cond == "" {
 			sb.WriteString("/>\n")
